@@ -50,7 +50,7 @@ def expect(scn_net: dict, hosts: list[str], port: int, mdns_dead: bool = False) 
             name = h.partition(".")[0]
             trace.append(("mdns", name))
             ent = scn_net.get("mdns", {}).get(name, {"outcome": "none"})
-            if ent.get("outcome", "ok") == "ok" and ent.get("latency", 0.01) <= 3.0:
+            if ent.get("outcome", "ok") in ("ok", "partial") and ent.get("latency", 0.01) <= 3.0:
                 for a in ent.get("v6", []):
                     got.append([int(socket.AF_INET6), a, port, 0, 0])
                 for a in ent.get("v4", []):
@@ -159,10 +159,10 @@ def gen_net(rng: random.Random, hosts: list[str]) -> dict:
         k = classify(h)
         if k == "local":
             name = h.partition(".")[0]
-            o = pick(rng, ["ok", "ok", "ok", "none", "error", "hang"], [4, 4, 4, 3, 2, 1])
+            o = pick(rng, ["ok", "ok", "ok", "none", "error", "hang", "partial"], [4, 4, 4, 3, 2, 1, 2])
             v4 = rng.sample(V4, rng.randint(0, 2))
             v6 = rng.sample(V6, rng.randint(0, 2))
-            if o == "ok" and not v4 and not v6:
+            if o in ("ok", "partial") and not v4 and not v6:
                 v4 = [V4[0]]
             net["mdns"][name] = {"outcome": o, "v4": v4, "v6": v6, "latency": pick(rng, [0.0, 0.01, 0.5, 2.999, 3.2])}
         if k in ("local", "fqdn"):
